@@ -211,6 +211,64 @@ pub fn run_behaviour(b: &Value) -> Outcome {
     out
 }
 
+/// gvh record steps <behaviours.ndjson> <trace.ndjson>: for every behaviour {ast, def, resources,
+/// data, ok} instantiate the definition and apply it in both directions with the hooks on; the
+/// trace (start / step* / ret per application) is validated by spec/Trace_Pipeline.tla
+pub fn record_steps(input: &str, output: &str) -> i32 {
+    use std::io::{BufRead, Write};
+    quiet_panics();
+    let f = std::fs::File::open(input).expect("cannot open behaviours");
+    let mut w = std::io::BufWriter::new(std::fs::File::create(output).expect("cannot create output"));
+    let (mut apps, mut events) = (0usize, 0usize);
+    for line in std::io::BufReader::new(f).lines() {
+        let line = line.unwrap();
+        if line.trim().is_empty() {
+            continue;
+        }
+        let b: Value = serde_json::from_str(&line).expect("bad behaviour json");
+        if b["ok"] != true {
+            continue;
+        }
+        let mut ctx = Ctx::new("minimal");
+        if let Some(res) = b["resources"].as_object() {
+            for (k, v) in res {
+                ctx.get_mut().register_resource(k, v.as_str().unwrap_or(""));
+            }
+        }
+        let def = b["def"].as_str().unwrap_or("");
+        let Ok(Ok(h)) = guarded(|| ctx.get_mut().op(def)) else {
+            writeln!(w, "{}", json!({"ev":"opfail","def":def})).unwrap();
+            continue;
+        };
+        for dir in ["F", "I"] {
+            let mut data = data_from(&b["data"]);
+            geodesy::verif::drain();
+            geodesy::verif::enable(true);
+            let r = apply_guarded(&ctx, h, dir, &mut data);
+            geodesy::verif::enable(false);
+            let evs = geodesy::verif::drain();
+            writeln!(w, "{}", json!({"ev":"start","prog":b["ast"],"dir":dir,"def":def})).unwrap();
+            for e in evs {
+                if e.kind != "step" {
+                    continue;
+                }
+                let get = |k: &str| e.fields.iter().find(|f| f.0 == k).map(|f| f.1.clone()).unwrap_or_default();
+                writeln!(w, "{}", json!({"ev":"step","name":get("name"),"skipped":get("skipped") == "true",
+                    "count":get("count").parse::<i64>().unwrap_or(-1),"depth":get("depth").parse::<i64>().unwrap_or(-1)})).unwrap();
+                events += 1;
+            }
+            match r {
+                Ok(Ok(n)) => writeln!(w, "{}", json!({"ev":"ret","count":n,"data":data_to_val(&data)})).unwrap(),
+                other => writeln!(w, "{}", json!({"ev":"panic","msg":format!("{other:?}")})).unwrap(),
+            }
+            apps += 1;
+            events += 2;
+        }
+    }
+    println!("{}", json!({"summary":true,"applications":apps,"events":events}));
+    0
+}
+
 /// gvh replay twin <in.ndjson> <out.ndjson>: every behaviour is executed in a Minimal and in a
 /// Plain context; the two observation sequences (ok/err of op, counts, result bits, steps) must be identical
 pub fn replay_twin(input: &str, output: &str) -> i32 {
